@@ -2,7 +2,9 @@ package c12
 
 import (
 	"context"
+	"errors"
 	"fmt"
+	"github.com/cloudwego/hertz/pkg/protocol/http1/resp"
 	"strings"
 	"sync"
 
@@ -35,6 +37,13 @@ func partCCases() []PartC {
 	for _, pl := range []string{"pool", "nopool"} {
 		for _, b := range []string{"matched", "unmatched"} {
 			out = append(out, PartC{Kind: "server", Place: pl, Beh: b})
+		}
+	}
+	// every member of the Abort family, called by a middleware in three response states (nothing set, body set, a hijacked
+	// chunked writer that has already written): nothing behind the caller may be entered and IsAborted() is true afterwards
+	for _, api := range abortAPIs {
+		for _, st := range []string{"plain", "body-set", "hijack-written"} {
+			out = append(out, PartC{Kind: "abort-family", Place: st, Beh: api})
 		}
 	}
 	for _, n := range []int{61, 62, 63, 64, 65, 70, 127, 128, 200} {
@@ -77,6 +86,10 @@ func serveC(e *route.Engine, path string) (pv interface{}) {
 func execPartC(c *mc.Ctx, pc PartC, cs Case) {
 	fail := func(kind, msg string) {
 		c.Violate(fmt.Sprintf("partC|%s|%s|%s", pc.Kind, kind, pc.Place), fmt.Sprintf("%+v: %s", pc, msg), cs)
+	}
+	if pc.Kind == "abort-family" {
+		abortFamily(pc, fail)
+		return
 	}
 	if pc.Kind == "server" {
 		serverChain(pc, fail)
@@ -220,6 +233,56 @@ var noPoolMu sync.Mutex
 
 // serverChain serves two requests on one connection through Engine.Serve: engine middleware, then the route's handlers
 // (or the not-found chain), each entered once and in order, for the first request of the connection as for the second.
+var abortAPIs = []string{"Abort", "AbortWithStatus", "AbortWithMsg", "AbortWithStatusJSON", "AbortWithError"}
+
+func abortFamily(pc PartC, fail func(kind, msg string)) {
+	s := srvh.New(srvh.Opts{})
+	var entered []string
+	aborted := false
+	mk := func(name string) app.HandlerFunc {
+		return func(c context.Context, ctx *app.RequestContext) {
+			entered = append(entered, name)
+			ctx.Next(c)
+		}
+	}
+	s.E.Use(mk("mw1"), func(c context.Context, ctx *app.RequestContext) {
+		entered = append(entered, "aborter")
+		switch pc.Place {
+		case "body-set":
+			ctx.SetStatusCode(200)
+			ctx.Response.SetBodyString("partial")
+		case "hijack-written":
+			ctx.Response.HijackWriter(resp.NewChunkedBodyWriter(&ctx.Response, ctx.GetWriter()))
+			ctx.Write([]byte("streamed so far")) //nolint:errcheck
+			ctx.Flush()                          //nolint:errcheck
+		}
+		switch pc.Beh {
+		case "Abort":
+			ctx.Abort()
+		case "AbortWithStatus":
+			ctx.AbortWithStatus(403)
+		case "AbortWithMsg":
+			ctx.AbortWithMsg("refused", 403)
+		case "AbortWithStatusJSON":
+			ctx.AbortWithStatusJSON(403, map[string]string{"e": "refused"})
+		case "AbortWithError":
+			ctx.AbortWithError(403, errors.New("refused")) //nolint:errcheck
+		}
+		aborted = ctx.IsAborted()
+		ctx.Next(c) // a no-op after Abort
+	})
+	s.E.GET("/r", mk("h1"), mk("h2"))
+	s.Start()
+	res := s.Run([][]byte{[]byte("GET /r HTTP/1.1\r\nHost: h\r\n\r\n")}, netsim.EndEOF, nil)
+	if res.Panic != nil {
+		fail("panic", fmt.Sprintf("panic while serving: %v", res.Panic))
+		return
+	}
+	if got := strings.Join(entered, " "); got != "mw1 aborter" || !aborted {
+		fail("chain", fmt.Sprintf("a middleware calling %s (response state %s) - handlers entered [%s], IsAborted() afterwards = %v; expected [mw1 aborter] and true", pc.Beh, pc.Place, got, aborted))
+	}
+}
+
 func serverChain(pc PartC, fail func(kind, msg string)) {
 	noPoolMu.Lock()
 	defer noPoolMu.Unlock()
